@@ -27,6 +27,11 @@ def decRateIter (tok : String) : Option RateIter :=
 
 def footprintOp (op : String) (args : List String) : Option J :=
   match op, args with
+  | "footprint.hs", [h] => do
+    let h ← match h with | "p" => some HsOutcome.proceeds | "d1" => some (.versionsDiffer true true) | "d1n" => some (.versionsDiffer true false) | "d0" => some (.versionsDiffer false true) | "e" => some .ends | _ => none
+    -- only the non-proceeding cases are answered here (the proceeding one is `footprint.audit`)
+    let conns := auditFootprintH h [] [] [] [] [] [] false { plan := [], sizeOf := fun _ => none }
+    pure (jok (.arr (conns.map jconn)))
   | "footprint.audit", [o, k, keys, plan, style, m] => do
     let o ← decBool o; let k ← decStrs k; let keys ← decStrs keys
     let plan ← if plan = "_" then some [] else (plan.splitOn ",").mapM decProbeOutcome
